@@ -151,7 +151,7 @@ theorem splitChunkForBranch_fo (c : Chunk) (i : Nat) (s : WS) (ex : List Nat)
     (hret : ∀ r, c.returnID = some r → r ≤ s.counter) :
     ∃ nw, FO s (splitChunkForBranch c i s).1 nw ex ∧
       (∀ d, (splitChunkForBranch c i s).2 = some d → d ≤ (splitChunkForBranch c i s).1.counter) ∧
-      (∀ q ∈ nw, q.statements = c.statements.drop (i + 1)) := by
+      (∀ q ∈ nw, q.statements = c.statements.drop (i + 1) ∧ q.branch = .none) := by
   unfold splitChunkForBranch
   split
   · exact ⟨[], FO.refl _ _, fun d h => hret d h, by simp⟩
@@ -161,7 +161,7 @@ theorem splitChunkForBranch_fo (c : Chunk) (i : Nat) (s : WS) (ex : List Nat)
       subst h
       simp
     · intro q hq
-      simp only [List.mem_singleton] at hq; subst hq; rfl
+      simp only [List.mem_singleton] at hq; subst hq; exact ⟨rfl, rfl⟩
 
 theorem splitBool_fo (e : BoolExpr) : ∀ (succ : Nat) (fail : Option Nat) (s s' : WS) (entry : Nat),
     splitBool e succ fail s = .ok (s', entry) → (∀ d, fail = some d → d ≤ s.counter) →
@@ -415,7 +415,7 @@ theorem createIf_fo (tok : Tok) (cond : BoolExpr) (body : List Stmt) (elifs : Li
   have f2 := f1.trans fel
   have l2 := fel.built.counter_le
   obtain ⟨nh, entry, hbr, hentry, fh, sh⟩ := ifTail_fo _ _ _ _ _ _ _ _ _ h
-    (fun d hd => by have := hpost d hd; simp only; omega) hel
+    (fun d hd => by have := hpost d hd; omega) hel
   have l3 := fh.built.counter_le
   have hout : ∀ (x : WS) (nx : List Chunk), x.counter ≤ (elseStep post a els).1.counter → s.counter ≤ x.counter →
       FO s x nx [] → FO s x nx [entry] := by
@@ -432,7 +432,7 @@ theorem createIf_fo (tok : Tok) (cond : BoolExpr) (body : List Stmt) (elifs : Li
   intro q hq
   simp only [List.mem_append, List.mem_singleton] at hq
   rcases hq with (hq | (rfl | hq) | hq) | hq
-  · exact .inr (.inl (hsp q hq))
+  · exact .inr (.inl (hsp q hq).1)
   · exact .inr (.inr (by simp [subBlocks]))
   · have := armChunks_stmts post elifs _ q hq
     exact .inr (.inr (by simp only [subBlocks, List.mem_cons, List.mem_append]; exact .inr (.inl this)))
@@ -440,5 +440,158 @@ theorem createIf_fo (tok : Tok) (cond : BoolExpr) (body : List Stmt) (elifs : Li
     subst this
     exact .inr (.inr (by simp [subBlocks]))
   · exact .inl (sh q hq)
+
+/-! ### loops -/
+
+theorem loop_fo (s0 s3 s' : WS) (nh : List Chunk) (post : Option Nat) (body : List Stmt) (tgt pt : Nat)
+    (b : FO { s0 with counter := s0.counter + 1 + 1 } s3 nh [tgt])
+    (htgt : Fresh s0.counter s3.counter tgt) (hpt : pt ≤ s0.counter + 1 + 1) (htp : tgt ≠ pt)
+    (hpost : ∀ r, post = some r → r ≤ s0.counter)
+    (hq : s'.queue = s3.queue ++
+      [{ id := s0.counter + 1 + 1, returnID := some (s0.counter + 1), statements := body },
+       { id := s0.counter + 1, returnID := post, branch := .jump tgt }])
+    (hc : s'.counter = s3.counter) (hf : s'.final = s3.final) (hb : s'.brk = s3.brk)
+    (hcn : s'.cont = s3.cont) :
+    FO s0 s' (nh ++
+      [{ id := s0.counter + 1 + 1, returnID := some (s0.counter + 1), statements := body },
+       { id := s0.counter + 1, returnID := post, branch := .jump tgt }]) [pt] := by
+  have l := b.built.counter_le
+  simp only at l
+  have b' : FO { s0 with counter := s0.counter + 1 + 1 } s3 nh [pt] := b.ex (by
+    intro d hd
+    simp only [List.mem_singleton] at hd; subst hd
+    exact .inr (fun hf => by have := hf.1; simp only at this; omega))
+  have g1 : FO s0 s3 nh [pt] := by
+    have := ((FO.reserve s0 [pt]).trans (FO.reserve _ [pt])).trans b'
+    simpa using this
+  refine g1.push _ hq hc hf hb hcn ?_ ?_ ?_ ?_ ?_
+  · intro q hq'
+    simp only [List.mem_cons, List.mem_nil_iff, or_false] at hq'
+    rcases hq' with rfl | rfl
+    · exact ⟨by simp only; omega, by simp only; omega⟩
+    · exact ⟨by simp only; omega, by simp only; omega⟩
+  · intro q hq' r hr
+    simp only [List.mem_cons, List.mem_nil_iff, or_false] at hq'
+    rcases hq' with rfl | rfl
+    · simp only [Option.some.injEq] at hr; subst hr; simp
+    · have := hpost r hr; simp only; omega
+  · intro q hq' hj d hd
+    simp only [List.mem_cons, List.mem_nil_iff, or_false] at hq'
+    rcases hq' with rfl | rfl
+    · simp only [tailId, Option.some.injEq] at hd; subst hd; simp
+    · simp [jt] at hj
+  · intro q hq' d hd
+    simp only [List.mem_cons, List.mem_nil_iff, or_false] at hq'
+    rcases hq' with rfl | rfl
+    · simp [jt] at hd
+    · simp only [jt, Option.some.injEq] at hd; subst hd
+      exact ⟨htgt, by simpa using htp⟩
+  · intro a ha b'' hb'' d hda hdb
+    simp only [List.mem_cons, List.mem_nil_iff, or_false] at ha
+    rcases ha with rfl | rfl
+    · simp [jt] at hda
+    · simp only [jt, Option.some.injEq] at hda; subst hda
+      simp only [List.mem_append, List.mem_cons, List.mem_nil_iff, or_false] at hb''
+      rcases hb'' with hb'' | rfl | rfl
+      · exact absurd (List.mem_singleton.2 rfl) (b.jtf b'' hb'' _ hdb).2
+      · simp [jt] at hdb
+      · rfl
+
+theorem createWhile_fo (cond : Option BoolExpr) (body : List Stmt) (c : Chunk) (i : Nat) (s s' : WS)
+    (br : Branch) (ret : Option Nat) (contId : Nat)
+    (h : createWhile cond body c i s = .ok (s', br, ret, contId))
+    (hret : ∀ r, c.returnID = some r → r ≤ s.counter) :
+    ∃ nw t, br = .jump t ∧ Fresh s.counter s'.counter t ∧ FO s s' nw [t] ∧
+      ∀ q ∈ nw, q.statements = [] ∨ q.statements = c.statements.drop (i + 1) ∨
+        (q.statements = body ∧ (∀ r, ret = some r → r < q.id) ∧ contId ≤ q.id) := by
+  unfold createWhile at h
+  simp only [alloc] at h
+  obtain ⟨nsp, fsp, hpost, hsp⟩ := splitChunkForBranch_fo c i s [(splitChunkForBranch c i s).1.counter + 1] hret
+  generalize splitChunkForBranch c i s = sp at h fsp hpost
+  obtain ⟨s0, post⟩ := sp
+  simp only at h fsp hpost
+  have l0 := fsp.built.counter_le
+  have stm : ∀ (nh : List Chunk) (tgt : Nat), (∀ q ∈ nh, q.statements = []) →
+      ∀ q ∈ nsp ++ (nh ++
+        [{ id := s0.counter + 1 + 1, returnID := some (s0.counter + 1), statements := body },
+         { id := s0.counter + 1, returnID := post, branch := .jump tgt }]),
+      q.statements = [] ∨ q.statements = c.statements.drop (i + 1) ∨
+        (q.statements = body ∧ (∀ r, post = some r → r < q.id) ∧ s0.counter + 1 ≤ q.id) := by
+    intro nh tgt hnh q hq
+    simp only [List.mem_append, List.mem_cons, List.mem_nil_iff, or_false] at hq
+    rcases hq with hq | hq | rfl | rfl
+    · exact .inr (.inl (hsp q hq).1)
+    · exact .inl (hnh q hq)
+    · refine .inr (.inr ⟨rfl, ?_, by simp⟩)
+      intro r hr
+      have := hpost r hr
+      simp only; omega
+    · exact .inl rfl
+  cases cond with
+  | none =>
+    simp only [Except.ok.injEq, Prod.mk.injEq] at h
+    obtain ⟨hs, rfl, rfl, rfl⟩ := h
+    have bl := loop_fo s0 { s0 with counter := s0.counter + 1 + 1 } s' [] post body (s0.counter + 1 + 1)
+      (s0.counter + 1) (FO.refl _ _) ⟨by omega, by simp⟩ (by omega) (by omega) hpost
+      (by rw [← hs]) (by rw [← hs]) (by rw [← hs]) (by rw [← hs]) (by rw [← hs])
+    have hc : s'.counter = s0.counter + 1 + 1 := by rw [← hs]
+    refine ⟨_, s0.counter + 1, rfl, ⟨by omega, by omega⟩, fsp.trans bl, ?_⟩
+    exact stm [] _ (by simp)
+  | some e =>
+    simp only at h
+    split at h
+    · cases h
+    · rename_i s3 entry h3
+      simp only [Except.ok.injEq, Prod.mk.injEq] at h
+      obtain ⟨hs, rfl, rfl, rfl⟩ := h
+      obtain ⟨nh, fh, fentry, snh⟩ := splitBool_fo _ _ _ _ _ _ h3 (by
+        intro d hd; have := hpost d hd; simp only; omega)
+      have l3 := fh.built.counter_le
+      simp only at l3 fentry
+      have bl := loop_fo s0 s3 s' nh post body entry (s0.counter + 1) fh
+        ⟨by have := fentry.1; omega, fentry.2⟩ (by omega) (by have := fentry.1; omega) hpost
+        (by rw [← hs]) (by rw [← hs]) (by rw [← hs]) (by rw [← hs]) (by rw [← hs])
+      have hc : s'.counter = s3.counter := by rw [← hs]
+      refine ⟨_, s0.counter + 1, rfl, ⟨by omega, by omega⟩, fsp.trans bl, ?_⟩
+      exact stm nh _ snh
+
+theorem createDoWhile_fo (cond : BoolExpr) (body : List Stmt) (c : Chunk) (i : Nat) (s s' : WS)
+    (br : Branch) (ret : Option Nat) (contId : Nat)
+    (h : createDoWhile cond body c i s = .ok (s', br, ret, contId))
+    (hret : ∀ r, c.returnID = some r → r ≤ s.counter) :
+    ∃ nw t, br = .jump t ∧ Fresh s.counter s'.counter t ∧ FO s s' nw [t] ∧
+      ∀ q ∈ nw, q.statements = [] ∨ q.statements = c.statements.drop (i + 1) ∨
+        (q.statements = body ∧ (∀ r, ret = some r → r < q.id) ∧ contId ≤ q.id) := by
+  unfold createDoWhile at h
+  simp only [alloc] at h
+  obtain ⟨nsp, fsp, hpost, hsp⟩ := splitChunkForBranch_fo c i s [(splitChunkForBranch c i s).1.counter + 1 + 1] hret
+  generalize splitChunkForBranch c i s = sp at h fsp hpost
+  obtain ⟨s0, post⟩ := sp
+  simp only at h fsp hpost
+  have l0 := fsp.built.counter_le
+  split at h
+  · cases h
+  · rename_i s3 entry h3
+    simp only [Except.ok.injEq, Prod.mk.injEq] at h
+    obtain ⟨hs, rfl, rfl, rfl⟩ := h
+    obtain ⟨nh, fh, fentry, snh⟩ := splitBool_fo _ _ _ _ _ _ h3 (by
+      intro d hd; have := hpost d hd; simp only; omega)
+    have l3 := fh.built.counter_le
+    simp only at l3 fentry
+    have bl := loop_fo s0 s3 s' nh post body entry (s0.counter + 1 + 1) fh
+      ⟨by have := fentry.1; omega, fentry.2⟩ (by omega) (by have := fentry.1; omega) hpost
+      (by rw [← hs]) (by rw [← hs]) (by rw [← hs]) (by rw [← hs]) (by rw [← hs])
+    have hc : s'.counter = s3.counter := by rw [← hs]
+    refine ⟨_, s0.counter + 1 + 1, rfl, ⟨by omega, by omega⟩, fsp.trans bl, ?_⟩
+    intro q hq
+    simp only [List.mem_append, List.mem_cons, List.mem_nil_iff, or_false] at hq
+    rcases hq with hq | hq | rfl | rfl
+    · exact .inr (.inl (hsp q hq).1)
+    · exact .inl (snh q hq)
+    · refine .inr (.inr ⟨rfl, ?_, by simp⟩)
+      intro r hr
+      have := hpost r hr
+      simp only; omega
+    · exact .inl rfl
 
 end Pory.Emit
